@@ -7,9 +7,13 @@
 // The copies are generated from the CURRENT files under -repo, so whatever
 // synchronisation an edited file contains is instrumented as well.
 //
-// Rewrites (outside critical sections only; between X.Lock() and the matching
-// X.Unlock() - or to the end of the function after `defer X.Unlock()` - the
-// code is left alone so that no goroutine is ever parked holding a mutex):
+// Rewrites. Between X.Lock() and the matching X.Unlock() (or to the end of the
+// function after `defer X.Unlock()`) only operations that can BLOCK become
+// scheduling points - plain sends and receives, select without default,
+// WaitGroup.Wait: a goroutine parked there holds the mutex, everybody else
+// spins in the TryLock loop below (= is blocked on the mutex) while lock-free
+// code of other goroutines may run. Everything else in a critical section
+// (close, atomics, select with default, range over a channel) stays atomic.
 //
 //	ch <- v                 vsched.Send(ch, v)
 //	<-ch, v, ok := <-ch     vsched.Recv(ch), vsched.Recv2(ch)
@@ -410,9 +414,8 @@ func (in *inst) stmt(s ast.Stmt, depth int) (pre []ast.Stmt, res ast.Stmt, ndept
 	case *ast.GoStmt:
 		return in.goStmt(x, depth)
 	case *ast.SendStmt:
-		if depth > 0 {
-			return nil, x, depth
-		}
+		// also inside a critical section: a plain send can block, and what other
+		// goroutines do meanwhile (lock-free channel operations) matters then
 		in.rewriteRecvs(x)
 		in.changed = true
 		in.yields++
@@ -442,7 +445,7 @@ func (in *inst) stmt(s ast.Stmt, depth int) (pre []ast.Stmt, res ast.Stmt, ndept
 				}
 				return nil, x, depth
 			case "Wait":
-				if depth == 0 && in.wgs[in.text(recv)] {
+				if in.wgs[in.text(recv)] {
 					in.changed = true
 					in.yields++
 					return nil, &ast.ExprStmt{X: vs("WgWait",
@@ -464,7 +467,7 @@ func (in *inst) stmt(s ast.Stmt, depth int) (pre []ast.Stmt, res ast.Stmt, ndept
 			}
 		}
 	}
-	if depth == 0 {
+	{ // receives can block: scheduling points also inside critical sections
 		switch x := s.(type) {
 		case *ast.IfStmt:
 			in.recvIn(x.Init)
@@ -607,7 +610,13 @@ func allBlank(l []ast.Expr) bool {
 }
 
 func (in *inst) selectStmt(x *ast.SelectStmt, depth int) ([]ast.Stmt, ast.Stmt, int) {
-	if depth > 0 {
+	nonBlocking := false
+	for _, c := range x.Body.List {
+		if c.(*ast.CommClause).Comm == nil {
+			nonBlocking = true
+		}
+	}
+	if depth > 0 && nonBlocking { // cannot block: stays part of the atomic critical section
 		for _, c := range x.Body.List {
 			cc := c.(*ast.CommClause)
 			cc.Body, _ = in.list(cc.Body, depth)
